@@ -832,11 +832,78 @@ func (f *FuncCtx) callContract(fn *types.Func, c *FuncContract, pc *PkgContracts
 		}
 		f.specDepth--
 	}
+	if f.spec != nil && c.Pure && len(c.Axiomatic) > 0 {
+		f.emitPureAxioms(fn, c, pc, sig, recv, short, cpkg)
+	}
 	if c.Assumed {
 		f.note("assumed contract (body not verified): " + short)
 	}
 	f.E.usedContract(f.key, short, c)
 	return results
+}
+
+// emitPureAxioms exports selected postconditions of a pure function (verified for all arguments on its own
+// body) as universally quantified axioms, so that they are available where the function is only applied inside
+// contract expressions (where postconditions are otherwise not unfolded).
+func (f *FuncCtx) emitPureAxioms(fn *types.Func, c *FuncContract, pc *PkgContracts, sig *types.Signature, recv *Val, short string, cpkg *types.Package) {
+	key := "pureaxioms:" + short
+	if f.specDone[key] {
+		return
+	}
+	f.specDone[key] = true
+	osig := fn.Type().(*types.Signature)
+	bound := map[string]Val{}
+	var qs []string
+	var hyps []string
+	var rv *Val
+	if r := osig.Recv(); r != nil && recv != nil {
+		n := "ax!" + sanitize(short) + "!recv"
+		v := Val{T: n, Typ: recv.Typ}
+		qs = append(qs, fmt.Sprintf("(%s %s)", n, f.sortOfVal(v)))
+		hyps = append(hyps, f.typeInv(n, recv.Typ, 0)...)
+		if r.Name() != "" && r.Name() != "_" {
+			bound[r.Name()] = v
+		}
+		rv = &v
+	}
+	var args []Val
+	for i := 0; i < sig.Params().Len(); i++ {
+		p := sig.Params().At(i)
+		n := fmt.Sprintf("ax!%s!%d", sanitize(short), i)
+		v := Val{T: n, Typ: p.Type()}
+		qs = append(qs, fmt.Sprintf("(%s %s)", n, f.S.SortOf(p.Type())))
+		hyps = append(hyps, f.typeInv(n, p.Type(), 0)...)
+		name := osig.Params().At(i).Name()
+		if name != "" && name != "_" {
+			bound[name] = v
+		}
+		args = append(args, v)
+	}
+	if len(qs) == 0 {
+		return
+	}
+	results := f.pureApp(short, sig, rv, args)
+	var names []string
+	for i := 0; i < osig.Results().Len(); i++ {
+		names = append(names, osig.Results().At(i).Name())
+	}
+	empty := &Env{vars: map[types.Object]Val{}, names: map[string]Val{}, heap: map[string]string{}, pc: "true"}
+	for _, idx := range c.Axiomatic {
+		if idx < 1 || idx > len(c.Ensures) {
+			f.fail("axiomatic %d: no such ensures clause in %s", idx, short)
+			continue
+		}
+		cl := c.Ensures[idx-1]
+		sc := &specCtx{bound: []map[string]Val{bound}, pkg: cpkg, pcs: pc, results: results, resNames: names, nolocals: true}
+		f.noHeap++
+		body := f.evalClause(cl, empty, sc)
+		f.noHeap--
+		if len(hyps) > 0 {
+			body = fmt.Sprintf("(=> (and %s) %s)", strings.Join(hyps, " "), body)
+		}
+		f.S.decls = append(f.S.decls, fmt.Sprintf("(assert (forall (%s) (! %s :pattern (%s))))", strings.Join(qs, " "), body, results[0].T))
+		f.note(fmt.Sprintf("postcondition %d of pure %s used as a quantified axiom inside contract expressions (it is proved on the function's own body)", idx, short))
+	}
 }
 
 // havocPath havocs one 'assigns' target of a callee at a call site.
